@@ -571,6 +571,9 @@ def tsident(pid):
                         val = pr._def((bb, i, st), 0, ())
                         if re.match(r"^Result::Ok\(Timestamp::Timestamp\(ok\((?:\w+::)*read_le_u64\(param:\w+\)\)\)\)$", val):
                             res.ok({"function": f.path, "returns": val[:80]})
+                        elif re.match(r"^Result::Ok\(Timestamp::Timestamp\((?:<impl u64>::|u64::)from_le_bytes\(.*\)\)\)$", val) and _filled_by_read_exact(ctx, f, ("s", bb, i)):
+                            # the same word, decoded in place: an 8-byte array filled by read_exact, then from_le_bytes
+                            res.ok({"function": f.path, "returns": "Timestamp(u64::from_le_bytes(<8 bytes filled by read_exact>))"}, nontrivial=True)
                         else:
                             res.fail(Finding(res.rule, "R-TSIDENT/read_from/not-the-word-read", "Timestamp::read_from can return %s: a stored time is not read back as the 64-bit word that was written" % val[:100], f, st["span"]))
         f = ctx.fx.fns.get("internal::timestamp::Timestamp::write_to")
@@ -579,6 +582,16 @@ def tsident(pid):
         else:
             pr = Prov(f)
             for c in view(ctx, f).calls.values():
+                if c.name.endswith("Write::write_all") and len(c.term["args"]) == 2:
+                    val = pr.operand(c.term["args"][1])
+                    mw = re.match(r"^(?:<impl u64>::|u64::)to_le_bytes\((.*)\)$", val)
+                    if mw:
+                        n += 1
+                        if re.match(r"^(param:self\.0|Timestamp::value\(param:self\))$", mw.group(1)):
+                            res.ok({"function": f.path, "writes": val})
+                        else:
+                            res.fail(Finding(res.rule, "R-TSIDENT/write_to/not-the-word-held", "Timestamp::write_to writes %s, not the word the timestamp holds" % val[:100], f, c.term["span"]))
+                    continue
                 if c.name.endswith("write_le_u64") and len(c.term["args"]) == 2:
                     n += 1
                     val = pr.operand(c.term["args"][1])
@@ -589,6 +602,51 @@ def tsident(pid):
         res.floor("codec sites", n, ctx.table("floors").get("tsident_sites", 0))
         return res
     return run
+
+
+def _filled_by_read_exact(ctx, f, node):
+    """The argument of the from_le_bytes call that feeds `node` is a `[u8; 8]` local that a read_exact on the
+    function's reader filled on every path to node (the read's Ok outcome dominates node)."""
+    from prov import guards as _guards
+    v = view(ctx, f)
+    for bb, c in v.calls.items():
+        if not re.search(r"(<impl u64>|u64)::from_le_bytes$", c.name) or not c.term["args"]:
+            continue
+        a = op_local(c.term["args"][0])
+        if a is None:
+            continue
+        # follow a plain copy back to the array itself
+        src = {a}
+        for blk in f.blocks:
+            for st in blk["stmts"]:
+                if st["s"] == "assign" and not st["place"]["proj"] and st["place"]["local"] in src and st["rv"]["r"] == "use" and op_local(st["rv"]["op"]) is not None:
+                    src.add(op_local(st["rv"]["op"]))
+        arrays = {l for l in src if f.locals[l]["s"] == "[u8; 8]"}
+        if not arrays:
+            continue
+        for b2, c2 in v.calls.items():
+            if not c2.name.endswith("Read::read_exact") or len(c2.term["args"]) < 2:
+                continue
+            r = op_local(c2.term["args"][1])
+            refs = set()
+            grow = {r}
+            for _ in range(4):
+                for blk in f.blocks:
+                    for st in blk["stmts"]:
+                        if st["s"] == "assign" and not st["place"]["proj"] and st["place"]["local"] in grow:
+                            rv = st["rv"]
+                            if rv["r"] == "ref":
+                                if any(e_.get("p") == "deref" for e_ in rv["place"]["proj"]):
+                                    grow.add(rv["place"]["local"])      # a re-borrow
+                                else:
+                                    refs.add(rv["place"]["local"])
+                            elif rv["r"] in ("use", "cast") and op_local(rv.get("op", {})) is not None:
+                                grow.add(op_local(rv["op"]))
+            if not (refs & arrays):
+                continue
+            if any(re.search(r"read_exact\(.*\) is Ok$", a_) for a_ in _guards(ctx, f).atoms_at(node)):
+                return True
+    return False
 
 
 def saturate(pid):
